@@ -46,10 +46,11 @@ func (c *Config) defaults() {
 }
 
 type genState struct {
-	r   *rand.Rand
-	cfg Config
-	sim *Sim
-	p   *Program
+	bulkDone bool
+	r        *rand.Rand
+	cfg      Config
+	sim      *Sim
+	p        *Program
 }
 
 func (g *genState) emit(st Step) Exp {
@@ -245,6 +246,17 @@ func (g *genState) oneOp() {
 		}
 		g.emit(Step{Op: "move", P: p[:len(p)-1], N: p[len(p)-1], D: dst})
 	case 3: // put
+		if g.cfg.Profile == "structural" && g.cfg.PageSize <= 4096 && !g.bulkDone && r.Intn(12) == 0 {
+			// once per program: enough ascending long keys for a three-level tree at this page size
+			// (about pageSize/130 keys per leaf and pageSize/120 children per branch)
+			g.bulkDone = true
+			ps := g.cfg.PageSize
+			n := ps*ps/15600*13/10 + 40
+			for i := 0; i < n; i++ {
+				g.emit(Step{Op: "put", P: p, K: &K{ID: i, Len: 100}, V: &V{Seed: r.Uint32(), Len: 12}})
+			}
+			return
+		}
 		if g.cfg.Profile == "structural" && r.Intn(6) == 0 {
 			// a run of ascending inserts: fast way to splits
 			start := r.Intn(g.cfg.KeySpace)
